@@ -120,6 +120,13 @@ fn gen_c01(ctx: &mut Ctx) {
         rt_case(ctx, a as u16, (a % 251) as u8, &[], false, "all-addresses");
         a += astep;
     }
+    // ... nor can the decoder place more than 255 bytes in a frame, whatever the length byte says
+    for s in oversize_strings(&mut rng) {
+        let line = format!("DEC {}", hex_of_bytes(&s));
+        let res = ctx.case(line.clone(), true, "oversize-wire-data");
+        let short = if line.len() > 300 { format!("{}...", &line[..300]) } else { line.clone() };
+        ctx.monitor(!res.starts_with("OK "), "C01-no-truncation", &short, &res[..res.len().min(200)]);
+    }
     // the Data constructor: accepted exactly up to 255 bytes
     for len in [0usize, 1, 2, 16, 254, 255, 256, 257, 300, 511, 512, 767, 1000, 4351, 65535, 65536, 65537, 65791, 65792, 100000, 131072, 131327] {
         let line = format!("NEW {}", len);
@@ -149,6 +156,31 @@ pub fn ref_encode(a: u16, t: u8, d: &[u8], nl: bool) -> Vec<u8> {
     s
 }
 
+/// Hand-built wire strings carrying MORE than 255 data bytes whose length byte is the actual count modulo 256
+/// (or off by one from it) and whose checksum is right for the bytes as written: a decoder that compares the
+/// count in 8 bits, or skips the 255-byte limit, accepts them.
+pub fn oversize_strings(rng: &mut Rng) -> Vec<Vec<u8>> {
+    let mut out = vec![];
+    for (k, n) in [256usize, 257, 300, 511, 512, 515, 768, 1023].iter().enumerate() {
+        for delta in [0usize, 1] {
+            let mut bytes = vec![((n + delta) % 256) as u8, rng.byte(), rng.byte(), rng.byte()];
+            bytes.extend(rng.bytes(*n));
+            let sum: u32 = bytes.iter().map(|b| *b as u32).sum();
+            bytes.push(((256 - sum % 256) % 256) as u8);
+            let mut s = vec![b':'];
+            for b in &bytes {
+                s.push(b"0123456789ABCDEF"[(b >> 4) as usize]);
+                s.push(b"0123456789ABCDEF"[(b & 15) as usize]);
+            }
+            if k % 2 == 1 {
+                s.extend_from_slice(b"\r\n");
+            }
+            out.push(s);
+        }
+    }
+    out
+}
+
 fn encode_of(ctx_line: &str) -> Vec<u8> {
     // "ENC a t data" -> reference encoding without newline
     let t: Vec<&str> = ctx_line.split(' ').collect();
@@ -168,6 +200,11 @@ fn gen_c02(ctx: &mut Ctx) {
         (0, 1, vec![]),
         (0xABCD, 0xEF, vec![0x01]),
         (0xA0A, 0xA, vec![0xA, 0xA0]),
+        // maximum-length frames whose last bytes are zero: a checksum (or length) computation that stops short of
+        // the end of a long frame is only exposed by damage in the tail, and only if the tail does not itself
+        // change the sum it should have contributed to
+        (0, 0, vec![0; 255]),
+        (0x0102, 3, { let mut v: Vec<u8> = (0..252).map(|i| (i * 3 + 1) as u8).collect(); let n = v.len(); v[n - 4..].fill(0); v }),
     ];
     let nrand = if ctx.tier_thorough { 40 } else { 6 };
     for _ in 0..nrand {
@@ -225,7 +262,7 @@ fn gen_c02(ctx: &mut Ctx) {
                     for _ in 0..extra {
                         cs.push(rng.byte());
                     }
-                    if d.len() > 20 && !ctx.tier_thorough && i % 7 != 0 && i > 12 && i + 6 < enc.len() {
+                    if d.len() > 20 && !ctx.tier_thorough && i % 7 != 0 && i > 12 && i + 16 < enc.len() {
                         cs.truncate(0);
                         cs.extend_from_slice(b"0Ff:");
                     }
@@ -255,6 +292,14 @@ fn gen_c02(ctx: &mut Ctx) {
                 emit(ctx, enc[..i].to_vec(), "truncate");
             }
         }
+    }
+    // declared length / checksum disagreement is never accepted: more than 255 data bytes with the length byte
+    // equal to the count modulo 256
+    for s in oversize_strings(&mut rng) {
+        let line = format!("DEC {}", hex_of_bytes(&s));
+        let res = ctx.case(line.clone(), true, "len-wraps-mod-256");
+        let short = if line.len() > 300 { format!("{}...", &line[..300]) } else { line.clone() };
+        ctx.monitor(!res.starts_with("OK "), "C02-len-ck-never-accepted", &short, &res[..res.len().min(200)]);
     }
     // declared length / checksum disagreement is never accepted: hand-built strings
     for _ in 0..(if ctx.tier_thorough { 4000 } else { 600 }) {
@@ -372,6 +417,10 @@ fn gen_c03(ctx: &mut Ctx) {
         }
     }
     ctx.notes.insert("exhaustive".into(), format!("all strings of length <= {} over the 28-symbol structural alphabet", maxlen));
+    // more than 255 data bytes with a length byte equal to (or one off) the count modulo 256
+    for s in oversize_strings(&mut rng) {
+        dec_case(ctx, &s, "oversize-wire-data");
+    }
     // 2. x ++ valid ++ y with |x| + |y| <= 2
     let templates = valid_templates(&mut rng, if ctx.tier_thorough { 12 } else { 3 });
     for (ti, tpl) in templates.iter().enumerate() {
@@ -887,6 +936,10 @@ fn gen_c07(ctx: &mut Ctx) {
                         break;
                     }
                 }
+                if ok && !res.ends_with(" eq=1") {
+                    ok = false;
+                    detail = "the page rebuilt from its own bytes does not equal it (==, hash)".to_string();
+                }
                 ctx.monitor(ok, "C07-pixel-location", &line, &detail);
             }
         }
@@ -1119,6 +1172,78 @@ fn gen_c19(ctx: &mut Ctx) {
                 };
                 ctx.monitor(res == want, "C19-accept-iff-key", &line, &res);
             }
+        }
+    }
+    // the 11 supported (family, id) pairs with adversarial remaining bytes: every single-byte variation of the real
+    // block over boundary values, all-0xFF and random fillers -- decoding must stay total and accept by key alone;
+    // the same blocks are digested by a virtual sign (which calls the decoder on every accepted block)
+    let block_hex: Vec<String> = (0..11usize).map(|i| crate::eval::eval_case(&format!("STT {}", i)).split(' ').next().unwrap().to_string()).collect();
+    for i in 0..11usize {
+        let real = bytes_of_hex(&block_hex[i]);
+        if real.len() != 16 {
+            continue;
+        }
+        let mut variants: Vec<Vec<u8>> = vec![];
+        for pos in 2..16usize {
+            for v in [0u8, 1, 0x0F, 0x10, 0x11, 0x7F, 0x80, 0xFF] {
+                if real[pos] != v {
+                    let mut b = real.clone();
+                    b[pos] = v;
+                    variants.push(b);
+                }
+            }
+        }
+        let mut ff = vec![0xFFu8; 16];
+        ff[0] = real[0];
+        ff[1] = real[1];
+        variants.push(ff);
+        for _ in 0..(if ctx.tier_thorough { 64 } else { 8 }) {
+            let mut b = rng.bytes(16);
+            b[0] = real[0];
+            b[1] = real[1];
+            variants.push(b);
+        }
+        for (vi, b) in variants.iter().enumerate() {
+            let line = format!("ST {}", hex_of_bytes(b));
+            let res = ctx.case(line.clone(), true, "known-key-varied-fields");
+            ctx.monitor(res == format!("OK {}", i), "C19-accept-iff-key", &line, &res);
+            if ctx.tier_thorough || vi % 4 == i % 4 {
+                let line = format!("VSL 7 A RO.7.RCF SD.0.{} DC.1 QS.7", hex_of_bytes(b));
+                let res = ctx.case(line.clone(), true, "vsign-digests-varied-block");
+                ctx.monitor(!res.contains("PANIC"), "C19-decode-total", &line, &res);
+            }
+        }
+    }
+    // a sign configured as one type, reset, then configured as another: what it derives is the NEW block's size
+    // (all 11 x 11 ordered pairs; reset by StartReset/FinishReset or by Goodbye)
+    for i in 0..11usize {
+        for j in 0..11usize {
+            if !ctx.tier_thorough && (i * 11 + j) % 3 != (ctx.seed % 3) as usize && i / 6 == j / 6 {
+                continue;
+            }
+            let (w, h) = SIGN_SIZES[j];
+            let total = total_bytes(w as u64, h as u64) as usize;
+            let mut page = vec![0xA5u8; total];
+            page[0] = 2;
+            let mut msgs = vec!["RO.7.RCF".to_string(), format!("SD.0.{}", block_hex[i]), "DC.1".to_string(), "RO.7.RPX".to_string(), "SD.0.00".to_string()];
+            if (i + j) % 2 == 0 {
+                msgs.push("RO.7.SRS".to_string());
+                msgs.push("RO.7.FRS".to_string());
+            } else {
+                msgs.push("GB.7".to_string());
+            }
+            msgs.extend(["RO.7.RCF".to_string(), format!("SD.0.{}", block_hex[j]), "DC.1".to_string(), "RO.7.RPX".to_string()]);
+            let mut n = 0;
+            for (k, c) in page.chunks(16).enumerate() {
+                msgs.push(format!("SD.{}.{}", k * 16, hex_of_bytes(c)));
+                n += 1;
+            }
+            msgs.push(format!("DC.{}", n));
+            msgs.push("QS.7".to_string());
+            let line = format!("VSL 7 M {}", msgs.join(" "));
+            let res = ctx.case(line.clone(), true, "vsign-reconfigured");
+            let want_pages = format!("# {}.{}.{}", w, h, hex_of_bytes(&page));
+            ctx.monitor(res.ends_with(&want_pages) && res.contains(&format!("RS.7.PRX/PRX.{}.1.", j)), "C19-vsign-derives", &line, &res[..res.len().min(120)]);
         }
     }
     // all lengths 0..=40 over all byte values; valid prefixes included
